@@ -33,6 +33,7 @@ def run(ctx, db, tier):
     by_value(ctx, db)
     destructor_joins(ctx, db)
     sleep_through_heap(ctx, db)
+    sleeper_never_disarmed(ctx, db)
     interval_owns_params(ctx, db)
 
 
@@ -407,6 +408,11 @@ def interval_ident(ctx, db):
     ok = sl is not None and cb is not None and norm_id(sl) == norm_id(cb)
     ctx.ob(rid, f, f['key'], ok, 'stop callback cancels %s, sleeps are scheduled with %s' % (cb, sl), desc='interval stop callback cancels a different identifier than it sleeps with')
     ctx.ob(rid, f, f['key'], not cb_lock, 'the stop callback does not hold the scheduler lock when it calls cancel', desc='interval stop callback locks around cancel')
+    # "cancel(id) hits exactly its target": the identifier must be unique to this activation of the generator - the address of an object in
+    # its own frame (automatic storage), not of a static / namespace-scope object shared by every generator made from this function
+    own = bool(re.fullmatch(r'&\((capture|local):\w+\)', sl or '')) or (sl or '') == 'this'
+    ctx.ob(rid, f, f['key'], own or sl is None, 'the identifier of the generator\'s sleeps (%s) is the address of an object of this activation' % sl,
+           desc='interval identifies its sleeps by %s, which is shared between generators: the stop of one cancels the sleep of another' % sl if not own else None)
     # the cancel issued by the stop callback only hits a sleep that is pending: a stop that arrives while the generator is parked in co_yield
     # (or before its first step) finds nothing to cancel, so every round must look at the token before it schedules the next sleep
     T = Tracer(db, depth=0, maxvisit=2)
@@ -445,6 +451,30 @@ def by_value(ctx, db):
     fl2 = next((x for x in (sc[0]['fields'] if sc else []) if x['name'] == '_scheduled'), None)
     t2 = (fl2 or {}).get('canon_type') or ''
     ctx.ob(rid, 'cocls::scheduler', (sc[0]['loc'] if sc else '?'), fl2 is not None and 'vector<' in t2 and 'SchItem' in t2 and '*' not in t2, '_scheduled owns its entries (%s)' % t2[:80], desc='_scheduled does not own its entries')
+
+
+SLEEPER_OPS_OK = ('cocls::promise::operator bool', 'cocls::promise::operator!', 'cocls::promise::promise', 'cocls::promise::operator=', 'cocls::promise::operator()',
+                  'cocls::promise::set_value', 'cocls::promise::set_exception', 'cocls::promise::get_id', 'cocls::promise::~promise')
+
+
+def sleeper_never_disarmed(ctx, db):
+    """a pending sleeper is completed by resolving its promise (on expiry, on cancel) or by destroying it (cancel by destruction).  claim() /
+    release() take the future away from the promise without resolving it: whoever waits on it is left hanging"""
+    rid = ctx.rule('C12.sleeper-never-disarmed', 'WHO', 'the promise held in a heap entry (SchItem::_p) is only tested, moved, resolved or destroyed by the scheduler; it is never disarmed '
+                   '(claim / release) - not even in the destructor, where pending sleeps must be cancelled, not silenced', floor=1)
+    seen = set(); n = 0
+    for f in db.all_instances():
+        if not f['nname'].startswith('cocls::scheduler::') or f['key'] in seen:
+            continue
+        seen.add(f['key'])
+        for e in f.events():
+            if e.k == 'call' and norm(e.get('lfield') or '') == 'cocls::scheduler::SchItem::_p':
+                n += 1
+                c = norm(e.get('callee') or '')
+                ctx.ob(rid, f, e['loc'], c in SLEEPER_OPS_OK, '%s on a pending sleeper in %s' % (c.split('::')[-1], f['nname'].split('::')[-1]),
+                       desc='%s disarms a pending sleeper (%s) without resolving it: the sleep never completes' % (f['nname'], c.split('::')[-1]) if c not in SLEEPER_OPS_OK else None)
+    if n == 0:
+        raise Broken('no use of SchItem::_p found in the scheduler: anchor changed')
 
 
 def destructor_joins(ctx, db):
